@@ -315,6 +315,19 @@ fn controller(prog: Arc<Program>) {
             hung = true;
             break;
         }
+        // Everything has gone quiet and nobody is going to call the API again on its own:
+        // with a pool thread allowed, every accepted background operation must have run by now
+        // (the teardown below would kick stranded queues and hide them).
+        if crate::oracle::liveness_mode(&prog) == crate::oracle::Live::Full {
+            let world = w();
+            let stranded = world.ops.iter().any(|r| {
+                r.kind.background() && matches!(r.outcome, CallOutcome::Returned(_)) && r.fin.is_none() && r.obj.map_or(false, |o| !world.objs[o].panic_injected)
+            });
+            if stranded {
+                hung = true;
+                break;
+            }
+        }
     }
 
     peek_all();
